@@ -63,7 +63,7 @@ import (
 )
 
 const preamble = `From Coq Require Import List NArith Bool.
-From Fabio Require Import Lib.Verdict Model.Shutdown Check.C18.
+From Fabio Require Import Lib.Verdict Model.Shutdown Model.ExitSignals Check.C18.
 Import ListNotations.
 Local Open Scope N_scope.
 `
@@ -1203,6 +1203,8 @@ func main() {
 
 	run := vh.Start("C18")
 	r := run.Rng
+	// fabio's real main() under real signals: its own processes and random source, in the background
+	sigClass := startSigClass(run.Seed, run.Thorough())
 	// Two waits: 600 ms for every scenario, 1500 ms again for a selection (a Shutdown that takes
 	// 1.5x the wait is 300 ms late at 600 ms, within the scheduling margin, but 750 ms late at 1500 ms).
 	// durations: short = ends >= 350 ms before the deadline, long = >= 400 ms beyond it
@@ -1454,6 +1456,8 @@ func main() {
 			run.Violation(id, fmt.Sprintf("registry of running servers not emptied by Shutdown: %d left", res.Left), sc)
 		}
 	}
+	sigClass.finish(run)
+	run.Notes["real_main_signals"] = map[string]interface{}{"wait_ms": sigWait, "upper_tolerance_ms": sigUpperTol, "scripts": len(sigClass.scs)}
 	run.Notes["wait_ms"] = []int{600, 1500}
 	run.Notes["hang_cap_ms"] = 10000
 	run.Notes["tolerances_ms"] = map[string]interface{}{"lower": lowerTol, "upper": upperTol, "http_poll": 600, "spec_margin": 150, "spec_slack": "max(300, wait/4)"}
